@@ -35,7 +35,10 @@ func c13Gen(r *rand.Rand, tier string) any {
 			sc.Ops = append(sc.Ops, opSpec{Op: "build", Label: label, Dry: true, Always: always})
 		}
 		real := opSpec{Op: "build", Label: label, Always: always}
-		if r.IntN(4) == 0 {
+		if r.IntN(5) == 0 {
+			// the REPL / watch pattern: dry run and real run on one loaded project
+			real = opSpec{Op: "build", Label: label, DryNil: true, N: r.IntN(2)}
+		} else if r.IntN(4) == 0 {
 			for _, t := range shadow.closure(label) {
 				if r.IntN(3) == 0 {
 					real.Fail = append(real.Fail, t.label())
@@ -152,6 +155,11 @@ func c13Exec(scAny any, c *simcheck.Ctx) *simcheck.Violation {
 			dryEval = nil
 			return nil
 		}
+		if op.DryNil {
+			c.St.Count("dry_then_real_on_one_project", 1)
+			dryEval = nil
+			return nil
+		}
 		if op.Dry {
 			c.St.Count("dry_runs", 1)
 			if len(h.startsIn(i)) > 0 {
@@ -214,7 +222,11 @@ func c13Exec(scAny any, c *simcheck.Ctx) *simcheck.Violation {
 		return nil
 	}
 	// twin: the same history without the dry runs executes identically
-	without, outsB, v, okB := runHistory(c, sc, "", func(i int, op *opSpec) bool { return op.Op == "build" && op.Dry }, nil)
+	twin := sc.clone()
+	for i := range twin.Ops {
+		twin.Ops[i].DryNil = false
+	}
+	without, outsB, v, okB := runHistory(c, twin, "", func(i int, op *opSpec) bool { return op.Op == "build" && op.Dry }, nil)
 	if v != nil || !okB {
 		return v
 	}
